@@ -206,7 +206,7 @@ func TestCheck(t *testing.T) {
 	rep.Require("errors_observed_for_a_step_missing_deeper_below_an_interface", int64(cfg.Pick(5, 100)))
 
 	ctx := context.Background()
-	n := int64(cfg.Pick(500, 20000))
+	n := int64(cfg.Pick(500, 50000))
 	rep.Cases(n, func(idx int64, rng *mon.Rand) {
 		c := genCase(rng)
 		runCase(ctx, rep, rng, c, idx)
